@@ -252,6 +252,106 @@ def install_task_wrapper():
     ar.apply_rules = apply_rules
 
 
+def reference_lines(data):
+    """What 'the lines that were read' are, computed independently of the tree: UTF-8 with
+    ISO-8859-1 fallback, universal newlines, no line terminators."""
+    try:
+        s = data.decode("utf-8")
+    except UnicodeDecodeError:
+        s = data.decode("ISO-8859-1")
+    s = s.replace("\r\n", "\n").replace("\r", "\n")
+    lines = s.split("\n")
+    if lines and lines[-1] == "":
+        lines.pop()
+    return lines
+
+
+_READS = {}
+
+
+def install_lossless_monitor():
+    """By-product monitor for C04 clauses 1-2 on the read seam (not part of the claim): for every
+    named file a simulated process reads and accepts, the model built from it must emit exactly
+    the lines that are in the sandbox (emit(parse(x)) == x), every line must survive
+    tokenize-and-join, and no token may stay unclassified.  Pass-through without a context."""
+    import vsg.vhdlFile  # noqa
+    from vsg import parser, tokens
+
+    vu = sys.modules["vsg.vhdlFile.utils"]
+    vf = sys.modules["vsg.vhdlFile.vhdlFile"]
+    real_read = vu.read_vhdlfile
+    if getattr(real_read, "_vsim_wrapped", False):
+        return
+
+    def raw(name):
+        c = seams.CTX
+        c.depth += 1
+        try:
+            with open(name, "rb") as fh:
+                return fh.read()
+        except OSError:
+            return None
+        finally:
+            c.depth -= 1
+
+    @functools.wraps(real_read)
+    def read_vhdlfile(sFileName, *a, **kw):
+        c = seams.CTX
+        if c is None or sFileName == "stdin" or not isinstance(sFileName, str):
+            return real_read(sFileName, *a, **kw)
+        b1 = raw(sFileName)
+        r = real_read(sFileName, *a, **kw)
+        b2 = raw(sFileName)
+        # only when nobody replaced the file while this process was parked inside the read
+        _READS[sFileName] = b1 if (b1 is not None and b1 == b2) else None
+        return r
+
+    read_vhdlfile._vsim_wrapped = True
+    vu.read_vhdlfile = read_vhdlfile
+    real_init = vf.vhdlFile.__init__
+
+    @functools.wraps(real_init)
+    def __init__(self, *a, **kw):
+        real_init(self, *a, **kw)
+        c = seams.CTX
+        if c is None:
+            return
+        name = getattr(self, "filename", None)
+        data = _READS.pop(name, None) if isinstance(name, str) else None
+        if data is None or getattr(self, "eError", None) is not None:
+            return
+        c.depth += 1
+        try:
+            want = reference_lines(data)
+            got = self.get_lines()[1:]
+            bad = None
+            if got != want:
+                i = 0
+                while i < min(len(got), len(want)) and got[i] == want[i]:
+                    i += 1
+                bad = "emit(parse(x)) != x at line %d of %d/%d: got %r want %r" % (i + 1, len(got), len(want), (got[i] if i < len(got) else None), (want[i] if i < len(want) else None))
+            else:
+                for i, ln in enumerate(want):
+                    if "".join(tokens.create(ln)) != ln:
+                        bad = "join(tokenize(s)) != s at line %d: %r" % (i + 1, ln[:120])
+                        break
+                if bad is None:
+                    for o in self.lAllObjects:
+                        if type(o) is parser.item:
+                            bad = "unclassified token %r" % (o.get_value()[:40],)
+                            break
+            if bad:
+                c.ctl.out("sim", "lossless-fail %s %s\n" % (name, bad[:400]))
+            else:
+                c.ctl.out("sim", "lossless-ok %s\n" % (name,))
+        except Exception as e:  # the monitor must never disturb the run
+            c.ctl.out("sim", "lossless-monitor-error %s %r\n" % (name, e))
+        finally:
+            c.depth -= 1
+
+    vf.vhdlFile.__init__ = __init__
+
+
 def install_update_raise(k):
     """Inject an exception at the k-th vhdlFile.update call (= end of the k-th Rule.fix that did
     something): 'a rule raising' in the middle of the in-memory fix."""
